@@ -35,9 +35,10 @@ theorem split_ne_nil (c : Char) (cs : List Char) (h : ws c = false) : split (c :
       rw [split_nws_nws c d ds h hd]
       cases split (d :: ds) <;> simp [consTok]
 
-/-- the tokenizer sees a blank as a token boundary: gluing two texts of which the second starts with a blank
-    concatenates their tokens -/
-theorem split_append_blank (a b : List Char) : split (a ++ ' ' :: b) = split a ++ split (' ' :: b) := by
+/-- the tokenizer sees white space as a token boundary: gluing two texts of which the second starts with a
+    white-space character concatenates their tokens -/
+theorem split_append_ws (a b : List Char) (s : Char) (hs : ws s = true) :
+    split (a ++ s :: b) = split a ++ split (s :: b) := by
   induction a with
   | nil => simp [split]
   | cons c a ih =>
@@ -47,7 +48,7 @@ theorem split_append_blank (a b : List Char) : split (a ++ ' ' :: b) = split a +
       cases a with
       | nil =>
         simp only [List.cons_append, List.nil_append]
-        rw [split_nws_ws c ' ' b hc ws_blank, split_single c hc]; rfl
+        rw [split_nws_ws c s b hc hs, split_single c hc]; rfl
       | cons d a' =>
         by_cases hd : ws d = true
         · simp only [List.cons_append] at ih ⊢
@@ -59,6 +60,9 @@ theorem split_append_blank (a b : List Char) : split (a ++ ' ' :: b) = split a +
           cases hs : split (d :: a') with
           | nil => exact absurd hs hne
           | cons t ts => simp [consTok]
+
+theorem split_append_blank (a b : List Char) : split (a ++ ' ' :: b) = split a ++ split (' ' :: b) :=
+  split_append_ws a b ' ' ws_blank
 
 theorem split_blank_cons (b : List Char) : split (' ' :: b) = split b := split_ws _ _ ws_blank
 
@@ -252,6 +256,131 @@ theorem mtNew_eq_isContLine (l : Line) : mtNew l = isContLine l := by
   simp [mtNew, isContLine, content, endsWithEq_rstrip]
 
 
+theorem split_append_allWs (u w : List Char) (h : allWs w = true) : split (u ++ w) = split u := by
+  cases w with
+  | nil => simp
+  | cons c w' =>
+    have hc : ws c = true := by simp only [allWs, List.all_cons, Bool.and_eq_true] at h; exact h.1
+    rw [split_append_ws u w' c hc, split_allWs _ h]; simp
+
+/-! ### lemmas about the marker under appending -/
+
+theorem trailingEq_append_allWs (a w : List Char) (h : allWs w = true) : trailingEq (a ++ w) = trailingEq a := by
+  induction a with
+  | nil => simpa [trailingEq] using trailingEq_allWs w h
+  | cons c a ih => simp [trailingEq, allWs_append, h, ih]
+
+theorem body_append_allWs (a w : List Char) (h : allWs w = true) :
+    body (a ++ w) = body a ++ (if trailingEq a then [] else w) := by
+  induction a with
+  | nil => simpa [trailingEq, body] using body_of_not_trailing w (trailingEq_allWs w h)
+  | cons c a ih =>
+    by_cases hm : (c == '=' && allWs a) = true
+    · simp [body, trailingEq, allWs_append, h, hm]
+    · simp [body, trailingEq, allWs_append, h, hm, ih]
+
+theorem split_body_append_allWs (a w : List Char) (h : allWs w = true) : split (body (a ++ w)) = split (body a) := by
+  rw [body_append_allWs a w h]
+  by_cases ht : trailingEq a = true
+  · simp [ht]
+  · simp only [ht, Bool.false_eq_true, ↓reduceIte]; exact split_append_allWs _ _ h
+
+theorem trailingEq_append (a x : List Char) (h : allWs x = false) : trailingEq (a ++ x) = trailingEq x := by
+  induction a with
+  | nil => rfl
+  | cons c a ih => simp [trailingEq, allWs_append, h, ih]
+
+theorem body_append (a x : List Char) (h : allWs x = false) : body (a ++ x) = a ++ body x := by
+  induction a with
+  | nil => rfl
+  | cons c a ih => simp [body, allWs_append, h, ih]
+
+theorem allWs_blank_cons (x : List Char) : allWs (' ' :: x) = allWs x := by simp [allWs, ws_blank]
+
+theorem trailingEq_blank_cons (x : List Char) : trailingEq (' ' :: x) = trailingEq x := by simp [trailingEq]
+
+theorem allWs_of_split_nil (x : List Char) : split x = [] → allWs x = true := by
+  induction x with
+  | nil => intro _; rfl
+  | cons c x ih =>
+    intro h
+    by_cases hc : ws c = true
+    · rw [split_ws c x hc] at h
+      simp only [allWs, List.all_cons, hc, Bool.true_and]; exact ih h
+    · simp only [Bool.not_eq_true] at hc; exact absurd h (split_ne_nil c x hc)
+
+/-! ### `normAux` sees a physical line only through four observations -/
+
+theorem normAux_line_congr (L L' : Line) (post : List Line)
+    (h1 : indented L' = indented L) (h2 : L'.isEmpty = L.isEmpty)
+    (h3 : isContLine L' = isContLine L) (h4 : ptoks L' = ptoks L) :
+    ∀ st, normAux st (L' :: post) = normAux st (L :: post) := by
+  intro st
+  cases st <;> simp [normAux, skip, h1, h2, h3, h4]
+
+theorem normAux_pre_congr (pre x y : List Line) (h : ∀ st, normAux st x = normAux st y) :
+    ∀ st, normAux st (pre ++ x) = normAux st (pre ++ y) := by
+  induction pre with
+  | nil => exact h
+  | cons p pre ih =>
+    intro st
+    cases st <;> simp [normAux, ih]
+
+/-- one line replaced by two: the general shape of a wrap -/
+theorem normAux_wrap (L l1 l2 : Line) (post : List Line)
+    (hi1 : indented l1 = indented L) (heL : L.isEmpty = false) (he1 : l1.isEmpty = false)
+    (hi2 : indented l2 = true) (hc1 : isContLine l1 = true) (hc2 : isContLine l2 = isContLine L)
+    (hp : ptoks L = ptoks l1 ++ ptoks l2) (hne : indented L = false → (ptoks l1).isEmpty = false) :
+    ∀ st, normAux st (L :: post) = normAux st (l1 :: l2 :: post) := by
+  intro st
+  cases st with
+  | none =>
+    by_cases hi : indented L = true
+    · simp [normAux, skip, hi, hi1, hi2]
+    · simp only [Bool.not_eq_true] at hi
+      have hpe : (ptoks L).isEmpty = false := by
+        have := hne hi
+        rw [hp]; cases h : ptoks l1 with
+        | nil => simp [h] at this
+        | cons a b => rfl
+      have hl1 : ptoks l1 ≠ [] := by
+        intro e; have := hne hi; simp [e] at this
+      have hL : ptoks l1 ++ ptoks l2 ≠ [] := by simp [hl1]
+      cases hcL : isContLine L <;>
+        simp [normAux, skip, hi, hi1, hi2, heL, he1, hc1, hc2, hl1, hL, hp, hcL]
+  | some acc =>
+    by_cases hi : indented L = true
+    · simp [normAux, hi, hi1, hi2, hc1, hc2, hp, List.append_assoc]
+    · simp [normAux, hi, hi1]
+
+/-- the state after `pre` is "between instructions" when its last line carries no marker -/
+def boundary (pre : List Line) : Prop := ∀ p ∈ pre.getLast?, isContLine p = false
+
+theorem normAux_insert_aux (e : Line) (he : skip e = true) (post : List Line) :
+    ∀ (pre : List Line), pre ≠ [] → boundary pre →
+      ∀ st, normAux st (pre ++ post) = normAux st (pre ++ e :: post) := by
+  intro pre
+  induction pre with
+  | nil => intro h; exact absurd rfl h
+  | cons p pre ih =>
+    intro _ hb st
+    cases pre with
+    | nil =>
+      have hp : isContLine p = false := hb p (by simp)
+      cases st <;> simp [normAux, hp, he]
+    | cons q pre' =>
+      have hb' : boundary (q :: pre') := by
+        intro x hx; apply hb x; simpa [List.getLast?_cons_cons] using hx
+      have := ih (by simp) hb'
+      exact normAux_pre_congr [p] _ _ this st
+
+theorem norm_insert (e : Line) (he : skip e = true) (pre post : List Line) (hb : boundary pre) :
+    norm (pre ++ post) = norm (pre ++ e :: post) := by
+  cases pre with
+  | nil => simp [norm, normAux, he]
+  | cons p pre' => exact normAux_insert_aux e he post (p :: pre') (by simp) hb none
+
+
 /-! ### the code's gluing yields the specification's logical lines -/
 
 theorem indented_iff (l : Line) : indented l = true ↔ ∃ l', l = ' ' :: l' := by
@@ -403,6 +532,305 @@ theorem glue_tokens (f : List Line) (n : List (List Token)) (h : norm f = some n
 example : norm ["dfix 1.5 c1 = ! x = y".toList, "   C2 =".toList, " C3".toList, "  ignored".toList, "rem a =".toList] =
     some [["DFIX".toList, "1.5".toList, "c1".toList, "C2".toList, "C3".toList], ["REM".toList, "a".toList, "=".toList]] := by
   decide
+
+
+/-! ### layout steps -/
+
+def noBang (a : List Char) : Prop := ∀ c ∈ a, c ≠ '!'
+/-- blanks are the only white space (no tabs etc.) -/
+def onlyBlanks (a : List Char) : Prop := ∀ c ∈ a, ws c = true → c = ' '
+
+theorem content_append (a x : List Char) (h : noBang a) : content (a ++ x) = a ++ content x :=
+  stripComment_append a x h
+
+theorem content_noBang (a : List Char) (h : noBang a) : content a = a := by
+  have := content_append a [] h
+  simpa [content, stripComment] using this
+
+theorem plainRem_indented (l : List Char) : plainRem (' ' :: l) = false := by
+  have : (Char.toUpper ' ' == 'R') = false := by decide
+  cases l with
+  | nil => simp [plainRem, upper, this]
+  | cons c l => cases l <;> simp [plainRem, upper, this]
+
+theorem indented_cons_append (c : Char) (a x y : List Char) : indented (c :: a ++ x) = indented (c :: a ++ y) := by
+  by_cases h : c = ' '
+  · subst h; rfl
+  · have : ∀ z, indented (c :: z) = false := by
+      intro z; unfold indented; split
+      · rename_i heq; injection heq with h1 _; exact absurd h1 h
+      · rfl
+    simp [this]
+
+structure WrapHyp (a b : List Char) : Prop where
+  noBang : noBang a
+  notRem : plainRem (a ++ ' ' :: b) = false
+  notRem1 : plainRem (a ++ [' ', '=']) = false
+  token : split (content b) ≠ []
+  blanks : onlyBlanks a
+
+theorem wrap_facts (a b : List Char) (h : WrapHyp a b) (post : List Line) :
+    ∀ st, normAux st ((a ++ ' ' :: b) :: post) = normAux st ((a ++ [' ', '=']) :: (' ' :: b) :: post) := by
+  have hx : allWs (content b) = false := by
+    cases hh : allWs (content b) with
+    | false => rfl
+    | true => exact absurd (split_allWs _ hh) h.token
+  have hx' : allWs (' ' :: content b) = false := by rw [allWs_blank_cons]; exact hx
+  have hcL : content (a ++ ' ' :: b) = a ++ ' ' :: content b := by
+    rw [content_append a _ h.noBang, content_blank_cons]
+  have hc1 : content (a ++ [' ', '=']) = a ++ [' ', '='] := by
+    rw [content_append a _ h.noBang]; rfl
+  have hmk : allWs [' ', '='] = false := by decide
+  have hiL : isContLine (a ++ ' ' :: b) = trailingEq (content b) := by
+    simp only [isContLine, hcL, h.notRem, trailingEq_append a _ hx', trailingEq_blank_cons]; simp
+  have hi1 : isContLine (a ++ [' ', '=']) = true := by
+    simp only [isContLine, hc1, h.notRem1, trailingEq_append a _ hmk]; decide
+  have hi2 : isContLine (' ' :: b) = trailingEq (content b) := by
+    simp only [isContLine, content_blank_cons, trailingEq_blank_cons, plainRem_indented]; simp
+  -- tokens
+  have hT1 : split (body (content (a ++ [' ', '=']))) = split a := by
+    rw [hc1, body_append a _ hmk]
+    have : body [' ', '='] = [' '] := by decide
+    rw [this, split_append_blank, split_blank_cons]; simp [split]
+  have hTL : split (if isContLine (a ++ ' ' :: b) then body (content (a ++ ' ' :: b)) else content (a ++ ' ' :: b)) =
+      split a ++ split (if isContLine (' ' :: b) then body (content (' ' :: b)) else content (' ' :: b)) := by
+    rw [hiL, hi2, hcL, content_blank_cons]
+    cases trailingEq (content b) with
+    | true =>
+      simp only [↓reduceIte]
+      rw [body_append a _ hx', body_cons_blank, split_append_blank]
+    | false =>
+      simp only [Bool.false_eq_true, ↓reduceIte]
+      rw [split_append_blank]
+  have hp2 : ptoks (' ' :: b) = split (if isContLine (' ' :: b) then body (content (' ' :: b)) else content (' ' :: b)) := by
+    simp [ptoks, indented]
+  apply normAux_wrap
+  · -- indented l1 = indented L
+    cases a with
+    | nil => rfl
+    | cons c a' => exact indented_cons_append c a' _ _
+  · cases a <;> rfl
+  · cases a <;> rfl
+  · rfl
+  · exact hi1
+  · rw [hi2, hiL]
+  · -- ptoks
+    by_cases hind : indented (a ++ ' ' :: b) = true
+    · have hind1 : indented (a ++ [' ', '=']) = true := by
+        cases a with
+        | nil => rfl
+        | cons c a' => rw [← hind]; exact indented_cons_append c a' _ _
+      rw [hp2]
+      simp only [ptoks, hind, hind1, hi1, ↓reduceIte]
+      rw [hTL, hT1]
+    · have hind1 : indented (a ++ [' ', '=']) = false := by
+        cases a with
+        | nil => exact absurd rfl hind
+        | cons c a' =>
+          simp only [Bool.not_eq_true] at hind
+          rw [← hind]; exact indented_cons_append c a' _ _
+      have hne : split a ≠ [] := by
+        cases a with
+        | nil => exact absurd rfl hind
+        | cons c a' =>
+          apply split_ne_nil
+          cases hw : ws c with
+          | false => rfl
+          | true =>
+            have := h.blanks c (by simp) hw
+            subst this; exact absurd rfl hind
+      rw [hp2]
+      simp only [ptoks, hind, hind1, hi1, Bool.false_eq_true, ↓reduceIte]
+      rw [hTL, hT1, upperHead_append _ _ hne]
+  · intro hind
+    have hind1 : indented (a ++ [' ', '=']) = false := by
+      cases a with
+      | nil => simp [indented] at hind
+      | cons c a' => rw [← hind]; exact indented_cons_append c a' _ _
+    have hne : split a ≠ [] := by
+      cases a with
+      | nil => simp [indented] at hind
+      | cons c a' =>
+        apply split_ne_nil
+        cases hw : ws c with
+        | false => rfl
+        | true =>
+          have := h.blanks c (by simp) hw
+          subst this; simp [indented] at hind
+    simp only [ptoks, hind1, hi1, Bool.false_eq_true, ↓reduceIte]
+    rw [hT1]
+    cases hs : split a with
+    | nil => exact absurd hs hne
+    | cons t ts => rfl
+
+
+/-- tokens of a physical line before keyword casing -/
+def T (l : Line) : List Token := split (if isContLine l then body (content l) else content l)
+
+theorem ptoks_eq (l : Line) : ptoks l = if indented l then T l else upperHead (T l) := rfl
+
+theorem blanks_facts (a b : List Char) (hB : noBang a)
+    (hr : plainRem (a ++ ' ' :: b) = false) (hr' : plainRem (a ++ ' ' :: ' ' :: b) = false) (post : List Line) :
+    ∀ st, normAux st ((a ++ ' ' :: ' ' :: b) :: post) = normAux st ((a ++ ' ' :: b) :: post) := by
+  have hc : content (a ++ ' ' :: b) = a ++ ' ' :: content b := by
+    rw [content_append a _ hB, content_blank_cons]
+  have hc' : content (a ++ ' ' :: ' ' :: b) = a ++ ' ' :: ' ' :: content b := by
+    rw [content_append a _ hB, content_blank_cons, content_blank_cons]
+  have hind : indented (a ++ ' ' :: ' ' :: b) = indented (a ++ ' ' :: b) := by
+    cases a with
+    | nil => rfl
+    | cons c a' => exact indented_cons_append c a' _ _
+  have key : isContLine (a ++ ' ' :: ' ' :: b) = isContLine (a ++ ' ' :: b) ∧ T (a ++ ' ' :: ' ' :: b) = T (a ++ ' ' :: b) := by
+    simp only [T, isContLine, hc, hc', hr, hr']
+    by_cases hx : allWs (content b) = true
+    · have h1 : allWs (' ' :: content b) = true := by rw [allWs_blank_cons]; exact hx
+      have h2 : allWs (' ' :: ' ' :: content b) = true := by rw [allWs_blank_cons]; exact h1
+      rw [trailingEq_append_allWs a _ h1, trailingEq_append_allWs a _ h2]
+      refine ⟨rfl, ?_⟩
+      cases trailingEq a with
+      | true => simp only [Bool.not_false, Bool.and_true, ↓reduceIte]
+                rw [split_body_append_allWs a _ h1, split_body_append_allWs a _ h2]
+      | false => simp only [Bool.not_false, Bool.and_true, Bool.false_eq_true, ↓reduceIte]
+                 rw [split_append_allWs a _ h1, split_append_allWs a _ h2]
+    · simp only [Bool.not_eq_true] at hx
+      have h1 : allWs (' ' :: content b) = false := by rw [allWs_blank_cons]; exact hx
+      have h2 : allWs (' ' :: ' ' :: content b) = false := by rw [allWs_blank_cons]; exact h1
+      rw [trailingEq_append a _ h1, trailingEq_append a _ h2]
+      simp only [trailingEq_blank_cons]
+      refine ⟨by simp, ?_⟩
+      cases trailingEq (content b) with
+      | true => simp only [Bool.not_false, Bool.and_true, ↓reduceIte, body_append a _ h1, body_append a _ h2,
+                  body_cons_blank, split_append_blank, split_blank_cons]
+      | false => simp only [Bool.not_false, Bool.and_true, Bool.false_eq_true, ↓reduceIte, split_append_blank,
+                  split_blank_cons]
+  apply normAux_line_congr
+  · exact hind
+  · cases a <;> rfl
+  · exact key.1
+  · rw [ptoks_eq, ptoks_eq, hind, key.2]
+
+theorem comment_facts (L t : List Char) (hne : L ≠ []) (hB : noBang L)
+    (hr : plainRem L = false) (hr' : plainRem (L ++ ' ' :: '!' :: t) = false) (post : List Line) :
+    ∀ st, normAux st ((L ++ ' ' :: '!' :: t) :: post) = normAux st (L :: post) := by
+  have hc : content L = L := content_noBang L hB
+  have hc' : content (L ++ ' ' :: '!' :: t) = L ++ [' '] := by
+    rw [content_append L _ hB]; simp [content, stripComment]
+  have hw : allWs [' '] = true := by decide
+  have hind : indented (L ++ ' ' :: '!' :: t) = indented L := by
+    cases L with
+    | nil => exact absurd rfl hne
+    | cons c r => have := indented_cons_append c r (' ' :: '!' :: t) []; simpa using this
+  have h3 : isContLine (L ++ ' ' :: '!' :: t) = isContLine L := by
+    simp only [isContLine, hc, hc', hr, hr', trailingEq_append_allWs L _ hw]
+  have h4 : T (L ++ ' ' :: '!' :: t) = T L := by
+    simp only [T, h3, hc, hc']
+    cases isContLine L with
+    | true => simp only [↓reduceIte]; exact split_body_append_allWs L _ hw
+    | false => simp only [Bool.false_eq_true, ↓reduceIte]; exact split_append_allWs L _ hw
+  apply normAux_line_congr
+  · exact hind
+  · cases L with
+    | nil => exact absurd rfl hne
+    | cons c r => rfl
+  · exact h3
+  · rw [ptoks_eq, ptoks_eq, hind, h4]
+
+/-- characters a keyword is made of -/
+def kwChars (k : List Char) : Prop := ∀ c ∈ k, ws c = false ∧ c ≠ '!' ∧ c ≠ '='
+
+theorem split_token (k : List Char) (hne : k ≠ []) (h : ∀ c ∈ k, ws c = false) : split k = [k] := by
+  induction k with
+  | nil => exact absurd rfl hne
+  | cons c k ih =>
+    cases k with
+    | nil => exact split_single c (h c (by simp))
+    | cons d k' =>
+      rw [split_nws_nws c d k' (h c (by simp)) (h d (by simp)), ih (by simp) (fun x hx => h x (by simp [hx]))]
+      rfl
+
+theorem trailingEq_append_kw (k y : List Char) (h : ∀ c ∈ k, c ≠ '=') : trailingEq (k ++ y) = trailingEq y := by
+  induction k with
+  | nil => rfl
+  | cons c k ih =>
+    have hc : (c == '=') = false := by simpa using h c (by simp)
+    simp [trailingEq, hc, ih (fun x hx => h x (by simp [hx]))]
+
+theorem body_append_kw (k y : List Char) (h : ∀ c ∈ k, c ≠ '=') : body (k ++ y) = k ++ body y := by
+  induction k with
+  | nil => rfl
+  | cons c k ih =>
+    have hc : (c == '=') = false := by simpa using h c (by simp)
+    simp [body, hc, ih (fun x hx => h x (by simp [hx]))]
+
+theorem upper_append (a b : List Char) : upper (a ++ b) = upper a ++ upper b := by simp [upper]
+
+theorem plainRem_upper (L L' : List Char) (h : upper L = upper L') : plainRem L = plainRem L' := by
+  have h3 : upper (L.take 3) = upper (L'.take 3) := by
+    simp only [upper] at h ⊢; rw [List.map_take, List.map_take, h]
+  simp only [plainRem, dsrMatch, h, h3]
+
+/-- the rest of a line after its first token: nothing, or it starts with white space -/
+def restOk (r : List Char) : Prop := r = [] ∨ ∃ s r', r = s :: r' ∧ ws s = true
+
+theorem T_kw (k r : List Char) (hne : k ≠ []) (hk : kwChars k) (hr : restOk r) :
+    ∃ Z, ∀ k', k' ≠ [] → kwChars k' → isContLine (k' ++ r) = isContLine (k ++ r) → T (k' ++ r) = [k'] ++ Z := by
+  have hcont : ∀ k', kwChars k' → content (k' ++ r) = k' ++ content r :=
+    fun k' hk' => content_append k' r (fun c hc => (hk' c hc).2.1)
+  rcases hr with rfl | ⟨s, r', rfl, hs⟩
+  · refine ⟨[], fun k' hne' hk' _ => ?_⟩
+    have hb : body k' = k' := by
+      have := body_append_kw k' [] (fun c hc => (hk' c hc).2.2); simpa [body] using this
+    have hcc : content k' = k' := content_noBang k' (fun c hc => (hk' c hc).2.1)
+    simp only [T, List.append_nil, hcc, hb, ite_self]
+    exact split_token k' hne' (fun c hc => (hk' c hc).1)
+  · have hsb : s ≠ '!' := by intro e; rw [e] at hs; exact absurd hs (by decide)
+    have hse : (s == '=') = false := by
+      cases hh : s == '=' with
+      | false => rfl
+      | true => rw [beq_iff_eq.mp hh] at hs; exact absurd hs (by decide)
+    have hcs : content (s :: r') = s :: content r' := by
+      simp [content, stripComment, List.takeWhile_cons, hsb]
+    have hbs : body (s :: content r') = s :: body (content r') := by simp [body, hse]
+    refine ⟨split (if isContLine (k ++ s :: r') then s :: body (content r') else s :: content r'),
+      fun k' hne' hk' hci => ?_⟩
+    simp only [T, hci, hcont k' hk', hcs]
+    cases isContLine (k ++ s :: r') with
+    | true =>
+      simp only [↓reduceIte]
+      rw [body_append_kw k' _ (fun c hc => (hk' c hc).2.2), hbs, split_append_ws _ _ s hs,
+        split_token k' hne' (fun c hc => (hk' c hc).1)]
+    | false =>
+      simp only [Bool.false_eq_true, ↓reduceIte]
+      rw [split_append_ws _ _ s hs, split_token k' hne' (fun c hc => (hk' c hc).1)]
+
+theorem case_facts (k k' r : List Char) (hne : k ≠ []) (hne' : k' ≠ []) (hk : kwChars k) (hk' : kwChars k')
+    (hu : upper k = upper k') (hr : restOk r) (post : List Line) :
+    ∀ st, normAux st ((k' ++ r) :: post) = normAux st ((k ++ r) :: post) := by
+  have hnb : ∀ (k : List Char), k ≠ [] → kwChars k → indented (k ++ r) = false ∧ (k ++ r).isEmpty = false := by
+    intro k hne hk
+    cases k with
+    | nil => exact absurd rfl hne
+    | cons c k0 =>
+      refine ⟨?_, rfl⟩
+      have hc := (hk c (by simp)).1
+      have : c ≠ ' ' := by intro e; rw [e] at hc; exact absurd hc (by decide)
+      show indented (c :: (k0 ++ r)) = false
+      unfold indented; split
+      · rename_i heq; injection heq with h1 _; exact absurd h1 this
+      · rfl
+  have hpr : plainRem (k' ++ r) = plainRem (k ++ r) :=
+    plainRem_upper _ _ (by rw [upper_append, upper_append, hu])
+  have hci : isContLine (k' ++ r) = isContLine (k ++ r) := by
+    simp only [isContLine, hpr, content_append k r (fun c hc => (hk c hc).2.1),
+      content_append k' r (fun c hc => (hk' c hc).2.1),
+      trailingEq_append_kw k _ (fun c hc => (hk c hc).2.2), trailingEq_append_kw k' _ (fun c hc => (hk' c hc).2.2)]
+  obtain ⟨Z, hZ⟩ := T_kw k r hne hk hr
+  apply normAux_line_congr
+  · rw [(hnb k hne hk).1, (hnb k' hne' hk').1]
+  · rw [(hnb k hne hk).2, (hnb k' hne' hk').2]
+  · exact hci
+  · rw [ptoks_eq, ptoks_eq, (hnb k hne hk).1, (hnb k' hne' hk').1, hZ k' hne' hk' hci, hZ k hne hk rfl]
+    simp [upperHead, hu]
 
 
 end Shelx.C05
